@@ -167,3 +167,17 @@ func VerifC12_ReleaseResets() {
 		sym.Reach("kept")
 	}
 }
+
+// VerifC09_ParsedRecordStaysFaithful: the fields of a parsed record still equal
+// the substrings of its line after further lines have been parsed and released
+// on the same allocator (the C12 aliasing scenario read as C09's faithfulness).
+//
+//verif:reach checked
+//verif:paths 50000
+func VerifC09_ParsedRecordStaysFaithful() { VerifC12_LiveRecordsDoNotAlias() }
+
+// VerifC09_FaithfulAfterAnyHistory: parsing after an arbitrary pool history gives the fields a fresh parser gives.
+//
+//verif:reach compared reused
+//verif:paths 50000
+func VerifC09_FaithfulAfterAnyHistory() { VerifC12_ReuseInvisible() }
